@@ -104,6 +104,20 @@ def sh_iv(x, n, scale, M):
     return D.interval(float(x), factorial(n) * scale, rel_ulps=8, mag=2 * M, tight=True)
 
 
+def sh_iv_player(x, n, scale, v, i):
+    """Certified interval of n! * scale * (Shapley value of player i) for an exactly representable game v: the value is the average
+    MARGINAL contribution, and on exact-domain games every marginal v(S+i) - v(S) is an exact float, so a summation of the 2^(n-1)
+    weighted marginals is off by at most (2^(n-1) + 8) roundings of the sum of their absolute values -- whatever the magnitude of the
+    game's values themselves (seed C06-g: two large dot products subtracted from one another lose the small marginals)."""
+    nf = factorial(n)
+    cond = 0.0
+    for c in range(2 ** n):
+        if not c >> i & 1:
+            k = bin(c).count("1")
+            cond += factorial(k) * factorial(n - k - 1) * abs(float(v[c | 1 << i]) - float(v[c]))
+    return D.interval(float(x), nf * scale, rel_ulps=2 ** (n - 1) + 8, mag=cond / nf + 1e-300, tight=True)
+
+
 def shapley_trace(tid, n, v, partner=None, graph=None):
     """partner: values of another game of the same size whose all-players computation is consumed in lock-step with this one."""
     scale = scale_of(v)
@@ -118,8 +132,8 @@ def shapley_trace(tid, n, v, partner=None, graph=None):
         else:
             allv = [a for a, _b in zip(compute_shapley_value(g), compute_shapley_value(full_game(n, partner)))]
         onev = [compute_shapley_value_for_player(i, g) for i in range(n)]
-        t["sh_all"] = [sh_iv(x, n, scale, M) for x in allv]
-        t["sh_one"] = [sh_iv(x, n, scale, M) for x in onev]
+        t["sh_all"] = [sh_iv_player(x, n, scale, v, i) for i, x in enumerate(allv)]
+        t["sh_one"] = [sh_iv_player(x, n, scale, v, i) for i, x in enumerate(onev)]
         t["entry_bits"] = int(all(float(a) == float(b) for a, b in zip(allv, onev)))
         again = list(compute_shapley_value(g))                     # a second evaluation on the same object
         t["entry_bits"] &= int(all(float(a) == float(b) for a, b in zip(allv, again)))
@@ -241,6 +255,12 @@ def main():
                     kind = 0
                 if kind == 1:
                     v = [x / 8 for x in v]
+                if j % 6 == 5 and 3 <= n <= 5 and j % 7 != 6:
+                    # one player worth a huge amount on top of a unit-scale INTEGER game: the other players' marginals are tiny against the
+                    # values (n! times the values stays inside TLC's 32-bit integers)
+                    big = float(2 ** (21 if n <= 4 else 19))
+                    v = [float(round(x)) + big * (c & 1) for c, x in enumerate(v)]
+                    kind = 0
                 elif kind == 2:                           # a null player
                     i = rng.randrange(n)
                     v = [v[c & ~(1 << i)] for c in range(NC)]
@@ -294,10 +314,13 @@ def main():
                     compute_shapley_value_for_player(n - 1, obj)
                     c = rng.randrange(1, NC)
                     v2 = list(v)
-                    v2[c] = v2[c] + (3.0 if j % 7 != 6 else 3.0 * 2.0 ** -30)
+                    v2[c] = v2[c] + 3.0 / scale_of(v)            # three units of the game's own grid
                     obj.set_value(v2[c], Coalition(c))
                     tid += 1
-                    traces.append(shapley_trace(tid, n, v2, None, obj))
+                    try:
+                        traces.append(shapley_trace(tid, n, v2, None, obj))
+                    except D.DriverError:
+                        pass
         else:
             if n <= a.unit_max_n:
                 for s in range(1, NC - 1):                # unit bound vectors (grand coalition known 0, empty 0)
